@@ -158,14 +158,9 @@ def size_of(r):
     return (r["meta"]["rank"], sum(abs(x) for x in r["meta"]["es"]) + sum(r["meta"]["ss"] or []), len(r["toks"]))
 
 
-def run_property(prop, tier, seed, configs=None, replay=None):
-    rep = Report(prop, tier, seed)
+def collect(rep, prop, tier, seed, exe, configs=None, replay=None):
+    """run the mapping family for `prop`, record violations in rep, return the coverage facts"""
     rng = random.Random(seed * 7919 + 17)
-    pr = prove_section(rep, prop)
-    exe, log = build_model()
-    if exe is None:
-        rep.violation("the Coq model or its extraction no longer builds", {"obligation": "build:model", "log": log[-3000:], "signature": "build:model"}, True)
-        return rep.finish()
     if configs is None:
         configs = list(QUICK_CFGS if tier == "quick" else THOROUGH_CFGS)
         if prop == "C14":
@@ -176,7 +171,7 @@ def run_property(prop, tier, seed, configs=None, replay=None):
         rp = json.load(open(replay))
         if rp.get("family") != "M":
             print("replay: not a family-M replay:", rp.get("obligation", rp.get("what")))
-            return 1 if rp else 0
+            return {"evaluations": 0, "distinct_nontrivial": 0}
         toks = rp["case_tokens"]
         inst = inst_from_toks(toks); inst.id = toks[0]
         meta = rp["meta"]
@@ -236,12 +231,7 @@ def run_property(prop, tier, seed, configs=None, replay=None):
         write_case_replay(rep, prop, r, cfg, issues)
         if len(seen) >= 6:
             break
-    # proof breakage
-    if getattr(rep, "proof_broken", False):
-        rep.violation("theorem(s) of %s no longer check: %s" % (prop, ", ".join(rep.broken_theorems) or "Properties file"),
-                      {"obligation": "proof:Properties_%s" % prop, "theorems": rep.broken_theorems, "log": rep.proof_log,
-                       "signature": "proof:%s" % prop}, no_failing_input=not any(not nf for (_, nf) in rep.violations))
-    rep.cov.update({
+    return {
         "evaluations": evaluations,
         "distinct_nontrivial": len(nontriv),
         "rule": "cases = seeded (instantiation, extents, strides/padding, constructor) tuples: small box {0..3}^rank, boundary lattice around imax(index_type), "
@@ -254,7 +244,39 @@ def run_property(prop, tier, seed, configs=None, replay=None):
         "samples": [{"case": "M " + " ".join(str(x) for x in r["toks"]), "instantiation": r["inst"].desc(), "model": r["model_line"][:300]}
                     for r in (records[:: max(1, len(records) // 5)][:5])],
         "exhaustive": False,
-    })
+    }
+
+
+def finish_common(rep, prop, covs):
+    """proof breakage + merged coverage"""
+    if getattr(rep, "proof_broken", False):
+        rep.violation("theorem(s) of %s no longer check: %s" % (prop, ", ".join(rep.broken_theorems) or "Properties file"),
+                      {"obligation": "proof:Properties_%s" % prop, "theorems": rep.broken_theorems, "log": rep.proof_log,
+                       "signature": "proof:%s" % prop}, no_failing_input=not any(not nf for (_, nf) in rep.violations))
+    if len(covs) == 1:
+        rep.cov.update(covs[0])
+    else:
+        merged = {"evaluations": 0, "distinct_nontrivial": 0, "programs": 0, "disagreements_checked": 0, "samples": [], "exhaustive": False,
+                  "rule": " || ".join(c.get("rule", "") for c in covs), "configurations": [], "input_distribution": {}}
+        for c in covs:
+            for k in ("evaluations", "distinct_nontrivial", "programs", "disagreements_checked"):
+                merged[k] += c.get(k, 0)
+            merged["samples"] += c.get("samples", [])[:3]
+            merged["configurations"] += [x for x in c.get("configurations", []) if x not in merged["configurations"]]
+            for k, v in c.get("input_distribution", {}).items():
+                merged["input_distribution"][k] = merged["input_distribution"].get(k, 0) + v
+        rep.cov.update(merged)
+
+
+def run_property(prop, tier, seed, configs=None, replay=None):
+    rep = Report(prop, tier, seed)
+    prove_section(rep, prop)
+    exe, log = build_model()
+    if exe is None:
+        rep.violation("the Coq model or its extraction no longer builds", {"obligation": "build:model", "log": log[-3000:], "signature": "build:model"}, True)
+        return rep.finish()
+    cov = collect(rep, prop, tier, seed, exe, configs, replay)
+    finish_common(rep, prop, [cov])
     rep.assumptions = ["index arithmetic of C++ (promotion, conversions, overflow) as modelled in coq/MachInt.v",
                        "the generator only produces inputs inside the quantifier domain; inputs it never produces are not tied"]
     prune_cache()
